@@ -524,3 +524,35 @@ def _nat_dump_crashpoints(h):
                         'descriptor present => data files complete', note)
             finally:
                 shutil.rmtree(d, ignore_errors=True)
+
+
+
+def nat_observers_behind_a_pair(h):
+    """bounded: a flow with observers (dump, stream, checkpoint, finalizer) whose datastream is handed to another flow as a
+    (descriptor, iterators) pair -- the documented way of running steps on the output of another flow: when the outer flow has
+    run, the inner observers have seen the complete stream and finished (descriptor written, final name, callback called once)"""
+    import json
+    from dataflows import Flow, load, dump_to_path, stream, finalizer, checkpoint
+    for nres in (1, 2, 3):
+        for selected in ([None] + ['res_%d' % k for k in range(1, nres + 1)] + [0, -1]):
+            d = tempfile.mkdtemp(prefix='c05p_')
+            try:
+                data = [[{'a': 10 * k + i} for i in range(3 + k)] for k in range(nres)]
+                fired = []
+                inner = Flow(*[[dict(r) for r in rs] for rs in data], dump_to_path(os.path.join(d, 'out')),
+                             stream(os.path.join(d, 's', 'x.ndjson')), checkpoint('cp', checkpoint_path=os.path.join(d, 'cps')),
+                             finalizer(lambda: fired.append(1))).datastream()
+                got = h.run(lambda: Flow(load((inner.dp.descriptor, inner.res_iter), resources=selected)).results(on_error=None)[0])
+                cfg = (nres, selected)
+                if not h.check(got[0] == 'ok', 'dataflows/processors/load.py::load.process_resources', cfg, 'runs', got[:2]):
+                    continue
+                dpj = os.path.join(d, 'out', 'datapackage.json')
+                ok = os.path.exists(dpj) and [r['count_of_rows'] for r in json.load(open(dpj))['resources']] == [len(x) for x in data]
+                h.check(ok, 'dataflows/processors/load.py::load.process_resources', cfg, 'inner dump complete: descriptor with all row counts',
+                        os.listdir(os.path.join(d, 'out')) if os.path.isdir(os.path.join(d, 'out')) else None)
+                h.check(os.listdir(os.path.join(d, 's')) == ['x.ndjson'] and os.listdir(os.path.join(d, 'cps', 'cp')) == ['stream.ndjson'],
+                        'dataflows/processors/load.py::load.process_resources', cfg, 'stream and checkpoint under their final names',
+                        (os.listdir(os.path.join(d, 's')), os.listdir(os.path.join(d, 'cps', 'cp'))))
+                h.check(fired == [1], 'dataflows/processors/load.py::load.process_resources', cfg, 'finalizer called exactly once', fired)
+            finally:
+                shutil.rmtree(d, ignore_errors=True)
